@@ -331,6 +331,16 @@ def check_state_plumb(ctx, R):
     for n in own_nodes(ap.node):
         if isinstance(n, ast.Assign) and isinstance(n.value, ast.Call) and src(n.value.func) == 'kwargs.pop' and n.value.args:
             pops[src(n.value.args[0]).strip("'\"")] = (n.targets[0].id if isinstance(n.targets[0], ast.Name) else None, n.value)
+    # (an option may also be a named parameter of accumulate_partitions instead of a kwargs.pop: same thing, spelled in the signature)
+    a_ = ap.node.args
+    named = a_.posonlyargs + a_.args + a_.kwonlyargs
+    dflt = dict(zip([x.arg for x in (a_.posonlyargs + a_.args)][len(a_.posonlyargs + a_.args) - len(a_.defaults):], a_.defaults))
+    dflt.update({k.arg: d for k, d in zip(a_.kwonlyargs, a_.kw_defaults) if d is not None})
+    for x in named:
+        if x.arg in ('start', 'returns_state', 'with_state') and x.arg not in pops:
+            d = dflt.get(x.arg)
+            fake = ast.Call(func=ast.Name(id='kwargs.pop', ctx=ast.Load()), args=[ast.Constant(value=x.arg)] + ([d] if d is not None else []), keywords=[])
+            pops[x.arg] = (x.arg, fake)
     acc_calls = [n for n in own_nodes(ap.node) if isinstance(n, ast.Call) and isinstance(n.func, ast.Attribute) and n.func.attr == 'accumulate']
     ok, detail = len(acc_calls) == 1, 'expected one call of stream.accumulate'
     if ok:
@@ -1086,10 +1096,14 @@ def check_window_fifo(ctx, R):
                         nf(hc) if hc is not None else H, params[0])
                     continue
                 apps = [c for c, s_, l in r.calls if isinstance(c, ast.Call) and nf(c.func) == H + '.append']
-                has_rows = next((o for c, o in r.conds if c.replace(' ', '') in ('len(%s)>0' % params[1], 'len(%s)' % params[1])), None)
-                if has_rows is None:
-                    has_rows = next((o for c, o in r.conds if _expand(r, c, 1).replace(' ', '') in (
-                        'len(%s)>0' % params[1], 'len(%s)' % params[1])), None)
+                from ..symexpr import norm_cond
+                has_rows = None
+                for c, o in r.conds:
+                    t_, o_ = norm_cond(_expand(r, c, 1), o)
+                    if t_.replace(' ', '') in ('len(%s)>0' % params[1], 'len(%s)' % params[1], 'len(%s)!=0' % params[1]):
+                        has_rows = o_
+                    if t_.replace(' ', '') in ('len(%s)==0' % params[1],):
+                        has_rows = not o_
                 okargs = all(len(c.args) == 1 and nf(c.args[0]) == params[1] for c in apps)
                 if len(apps) > 1 or not okargs or (has_rows is True and len(apps) != 1) or (has_rows is False and apps) \
                         or (has_rows is None and len(apps) != 1):
@@ -1291,23 +1305,23 @@ def check_operator_table(ctx, R):
             detail = '%s returns %s, the data model prescribes %s' % (mname, got, want)
         R.ob('OPERATOR-TABLE', con, mname, ok, detail, ctx.where(fn, fn.node.lineno))
     # the reconstruction of the positional argument order in map_partitions
+    import re
     pbo = M.function('streamz.collection', 'partial_by_order')
     paths = [r for r in SymEval(M, None, name_calls=True).run(pbo) if not r.raised and r.ret is not None]
     ok, detail = bool(paths), 'no returning path'
     for r in paths:
-        texts = [nf(c) for c, s_, l in r.calls]
-        lists = [k for k, t in enumerate(texts) if t == 'list(args)']
-        ins = [t for t in texts if any(t.startswith('C%d.%s(' % (k_, m_)) for k_ in lists for m_ in (
-            'insert', 'append', 'extend', 'appendleft', 'pop', 'remove', 'reverse', 'sort', 'clear'))]
-        in_loop = any(l and 'C' in l[-1][0] for c, s_, l in r.calls)
-        call = [t for t in texts if t.startswith("C") and False]
-        if len(lists) != 1:
-            ok, detail = False, 'the positional arguments are not copied once into a list'
+        fin = re.fullmatch(r'C(\d+)', nf(r.ret))
+        fc = r.calls[int(fin.group(1))][0] if fin else None
+        star = [a_ for a_ in fc.args if isinstance(a_, ast.Starred)] if isinstance(fc, ast.Call) else []
+        if len(star) != 1 or len(fc.args) != 1:
+            ok, detail = False, 'the function is not applied to the rebuilt argument list (`function(*<list>, **kwargs)`)'
             continue
-        L = 'C%d' % lists[0]
-        # every insert puts the recorded argument at its recorded position: L.insert(FIRST(ELEM(other)), ELEM(other)[1])
-        other = next((nf(c) for c, s_, l in r.calls if isinstance(c, ast.Call) and nf(c.func) == 'kwargs.pop' and c.args
-                      and nf(c.args[0]) == "'other'"), None)
+        L = nf(star[0].value)
+        mk = re.fullmatch(r'C(\d+)', L)
+        made = nf(r.calls[int(mk.group(1))][0]) if mk else L
+        if not (made in ('list(args)', 'list(args[:])', '[*args]') or re.fullmatch(r'\[(\w+)for\1inargs\]', made)):
+            ok, detail = False, 'the argument list is %s, not a copy of the positional arguments' % made[:50]
+            continue
         ko = next((k for k, (c, s_, l) in enumerate(r.calls) if isinstance(c, ast.Call) and nf(c.func) == 'kwargs.pop' and c.args
                    and nf(c.args[0]) == "'other'"), None)
         if ko is None:
@@ -1315,13 +1329,13 @@ def check_operator_table(ctx, R):
             continue
         O = 'C%d' % ko
         good_ins = '%s.insert(FIRST(ELEM(%s)),ELEM(%s)[1])' % (L, O, O)
-        if in_loop and not ins:
+        muts = [nf(c) for c, s_, l in r.calls if isinstance(c, ast.Call) and isinstance(c.func, ast.Attribute) and nf(c.func.value) == L
+                and c.func.attr in ('insert', 'append', 'extend', 'pop', 'remove', 'reverse', 'sort', 'clear')]
+        in_loop = any(l and l[-1][0].replace(' ', '') == O for c, s_, l in r.calls)
+        if in_loop and not muts:
             ok, detail = False, 'the recorded non-stream arguments are not inserted into the argument list'
-        if any(t != good_ins for t in ins):
-            ok, detail = False, 'a non-stream argument is not inserted at its recorded position: %s' % [t for t in ins if t != good_ins][:1]
-        final = [c for c, s_, l in r.calls if isinstance(c, ast.Call) and any(isinstance(a, ast.Starred) and nf(a.value) == L for a in c.args)]
-        if len(final) != 1 or nf(r.ret) != 'C%d' % [k for k, (c, s_, l) in enumerate(r.calls) if c is final[0]][0]:
-            ok, detail = False, 'the function is not applied to the rebuilt argument list'
+        if any(t != good_ins for t in muts):
+            ok, detail = False, 'a non-stream argument is not inserted at its recorded position: %s' % [t for t in muts if t != good_ins][:1]
     R.ob('OPERATOR-TABLE', ctx.construct(pbo), 'argument-order', ok, detail, ctx.where(pbo, pbo.node.lineno), None, len(paths))
 
 
